@@ -5,7 +5,7 @@ EXTENDS Integers, Sequences, FiniteSets, TLC, Json
 (* (Bases / Concrete are copied from PyAggr.tla: this wrapper does not instantiate the module) *)
 Bases == <<"INTEGER", "REAL", "STRING">>
 Concrete(b) == CASE b = "INTEGER" -> <<"0", "1", "-1", "7">> [] b = "REAL" -> <<"0.0", "1.5", "-2.5", "1e10">> [] b = "STRING" -> <<"", "a", "b", "ab">>
-CONSTANTS Vals, Bad, MaxLo, MaxSpan, MaxLen
+CONSTANTS Vals, Bad, MaxLo, MaxSpan, MaxLen, TwinMax
 VARIABLES cfg, ops
 Kinds == {"ARRAY", "LIST", "BAG", "SET"}
 (* Bad + 1 is PyAggr!Twin: the ill-typed value that compares equal to the well-typed value 1 *)
@@ -15,15 +15,16 @@ Legal(r) == /\ (r.kind = "ARRAY" => ~r.unb /\ r.lo <= r.hi)
 Cfgs == {r \in [kind : Kinds, lo : 0..MaxLo, hi : 0..(MaxLo + MaxSpan), unb : BOOLEAN, uniq : BOOLEAN, opt : BOOLEAN] :
            Legal(r) /\ (r.unb => r.hi = 0) /\ (~r.unb => r.hi <= r.lo + MaxSpan)}
 Idx(r) == (r.lo - 1)..((IF r.unb THEN r.lo + 2 ELSE r.hi) + 1)
+IllTyped == IF TwinMax > 0 THEN {Bad, Bad + 1} ELSE {Bad}
 Ops(r) == IF r.kind \in {"ARRAY", "LIST"}
-          THEN {[op |-> "set", i |-> i, v |-> v] : i \in Idx(r), v \in Vals \cup {Bad, Bad + 1}}
+          THEN {[op |-> "set", i |-> i, v |-> v] : i \in Idx(r), v \in Vals \cup IllTyped}
                \cup {[op |-> "get", i |-> i, v |-> 0] : i \in Idx(r)}
-          ELSE {[op |-> "add", i |-> 0, v |-> v] : v \in Vals \cup {Bad, Bad + 1}}
+          ELSE {[op |-> "add", i |-> 0, v |-> v] : v \in Vals \cup IllTyped}
 Len4(r) == IF r.kind \in {"ARRAY", "LIST"} THEN MaxLen ELSE MaxLen + 3
 Init == cfg \in Cfgs /\ ops = <<>>
 Next == \E o \in Ops(cfg) : ops' = Append(ops, o) /\ UNCHANGED cfg
-(* the twin appears at most once per scenario (at every position, after and before every pattern of well-typed values) *)
-Bound == Len(ops) <= Len4(cfg) /\ Cardinality({i \in DOMAIN ops : ops[i].v = Bad + 1}) <= 1
+(* the twin appears at most TwinMax times per scenario (at every position, after and before every pattern of well-typed values) *)
+Bound == Len(ops) <= Len4(cfg) /\ Cardinality({i \in DOMAIN ops : ops[i].v = Bad + 1}) <= TwinMax
 (* the base type rotates with the scenario (every declaration and every operation pattern meets every base over the sequences) *)
 RECURSIVE Sum(_, _)
 Sum(q, i) == IF i > Len(q) THEN 0 ELSE q[i].i * i + q[i].v + Sum(q, i + 1)
